@@ -1228,6 +1228,9 @@ struct Ctx<'a> {
     crash_at: Option<usize>,
     /// the log mode of the case being judged
     cur_wal: Option<SyncMode>,
+    /// the case being judged was already re-run on the filter-free store: did it differ
+    twin_differs: Option<bool>,
+    twin_history_differs: bool,
     /// re-run every case of a store with a Bloom filter on the filter-free store, same step order
     /// (Lean: `BloomProps.bloom_store_transparent`): trace, results, image, log must be the same
     twin_always: bool,
@@ -1386,8 +1389,12 @@ impl Ctx<'_> {
                 self.violation(class, what, inp);
             }
         }
+        self.twin_differs = None;
         if variant & 1 == 1 && self.twin_always && !real_mutex {
-            if let Some(d) = self.twin(progs, wal, &o) {
+            let d = self.twin(progs, wal, &o, false);
+            self.twin_differs = Some(d.is_some());
+            self.twin_history_differs = d.as_ref().map_or(false, |d| d["history_differs"] == json!(true));
+            if let Some(d) = d {
                 self.violation(
                     "tensor_store.bloom_filter/answers_differ_from_filter_free_store",
                     "the same programs in the same step order on a store without a Bloom filter give other results: the filter is not invisible",
@@ -1581,7 +1588,7 @@ impl Ctx<'_> {
     /// `BloomProps.bloom_store_transparent` asked of the real store: the same programs in the same
     /// order of atomic steps on the store built WITHOUT the filter (otherwise the same variant).
     /// Some(details) when trace, results, final image, log or recovered image differ.
-    fn twin(&mut self, progs: &[Vec<Op>], wal: Option<SyncMode>, o: &RunOut) -> Option<serde_json::Value> {
+    fn twin(&mut self, progs: &[Vec<Op>], wal: Option<SyncMode>, o: &RunOut, history_only: bool) -> Option<serde_json::Value> {
         let t = match scripted(progs, wal, self.variant & !1, &o.sched) {
             Some(t) => t,
             None => {
@@ -1590,7 +1597,9 @@ impl Ctx<'_> {
             }
         };
         self.rep.hit("twin:same_steps_on_filter_free_store");
-        let same = t.trace == o.trace && t.hist_s == o.hist_s && t.image == o.image && t.wal == o.wal && t.rimage == o.rimage;
+        // `history_only`: to attribute a non-linearizable HISTORY to the filter only what the
+        // threads saw counts (the images are judged by the quiescent and the recovery oracles)
+        let same = t.trace == o.trace && t.hist_s == o.hist_s && (history_only || (t.image == o.image && t.wal == o.wal && t.rimage == o.rimage));
         if same {
             self.rep.hit("oracle:filtered_store_equals_filter_free_store");
             return None;
@@ -1600,7 +1609,8 @@ impl Ctx<'_> {
             "first_result_that_differs": first.map(|r| format!("t{}:{} -> {} on the store with the filter, {} without", r.t, r.op.show(), r.res.show(),
                 t.hist.iter().find(|q| q.t == r.t && q.i == r.i).map_or("(not completed)".to_string(), |q| q.res.show()))),
             "real_history": o.hist_s, "filter_free_history": t.hist_s, "real_trace": o.trace, "filter_free_trace": t.trace,
-            "image": o.image, "filter_free_image": t.image,
+            "image": o.image, "filter_free_image": t.image, "recovered": o.rimage, "filter_free_recovered": t.rimage,
+            "history_differs": t.trace != o.trace || t.hist_s != o.hist_s,
         }))
     }
 
@@ -1678,7 +1688,12 @@ impl Ctx<'_> {
             // a store with a Bloom filter: before the failure is filed under a class of the
             // filter-free code, ask the filter-free store for the same steps
             let w = self.cur_wal;
-            if let Some(d) = self.twin(progs, w, o) {
+            if self.twin_differs == Some(true) && self.twin_history_differs {
+                // already reported by `case` (answers_differ_from_filter_free_store)
+                return self.durable_oracle(progs, wal, o, base, &incoherent);
+            }
+            let d = if self.twin_differs.is_none() { self.twin(progs, w, o, true) } else { None };
+            if let Some(d) = d {
                 self.violation(
                     "tensor_store.bloom_filter/history_not_linearizable_and_differs_from_filter_free_store",
                     "no order of the completed operations that respects real time is a legal sequential execution of the key→value map, and the same programs in the same step order on a store without a Bloom filter give other results",
@@ -1832,7 +1847,7 @@ fn main() {
                 let sched = parse_sched(if real_mutex { v["failing_input"]["grants"].as_str().unwrap_or(f[3]) } else { f[3] });
                 // the store of the failing run: `runb` = built with a Bloom filter; `store_variant` as in `run_real`
                 let variant = (v["failing_input"]["store_variant"].as_u64().unwrap_or(0) as u8 & 3) | u8::from(f[0] == "runb");
-                let mut ctx = Ctx { rep: &mut rep, model: &mut model, viol_count: BTreeMap::new(), budget_hits: 0, stalls: 0, exclusive_emb: false, real_mutex, variant, scan_observed: 0, crash_at: None, cur_wal: None, twin_always: true };
+                let mut ctx = Ctx { rep: &mut rep, model: &mut model, viol_count: BTreeMap::new(), budget_hits: 0, stalls: 0, exclusive_emb: false, real_mutex, variant, scan_observed: 0, crash_at: None, cur_wal: None, twin_differs: None, twin_history_differs: false, twin_always: true };
                 let mut r = root.fork("replay");
                 let wal = if f[1] == "1" { Some(SyncMode::Immediate) } else { None };
                 if let Some(o) = ctx.case("replay", &progs, wal, Some(&sched), &mut r, true) {
@@ -1845,7 +1860,7 @@ fn main() {
     }
 
     let scale: u64 = if args.thorough { 12 } else { 1 };
-    let mut ctx = Ctx { rep: &mut rep, model: &mut model, viol_count: BTreeMap::new(), budget_hits: 0, stalls: 0, exclusive_emb: false, real_mutex: false, variant: 0, scan_observed: 0, crash_at: None, cur_wal: None, twin_always: false };
+    let mut ctx = Ctx { rep: &mut rep, model: &mut model, viol_count: BTreeMap::new(), budget_hits: 0, stalls: 0, exclusive_emb: false, real_mutex: false, variant: 0, scan_observed: 0, crash_at: None, cur_wal: None, twin_differs: None, twin_history_differs: false, twin_always: false };
 
     // ---- FIRST: stores built WITH a Bloom filter (`with_bloom_filter`, `with_bloom_and_instrumentation`,
     //      `open_durable_with_bloom`; recovered with `recover_with_bloom`), directed (deterministic for
